@@ -17,6 +17,7 @@ Equality of XLA-compiled and eager execution is covered ONLY by (B) (partial).
 from __future__ import annotations
 
 import inspect
+import os
 import json
 import warnings
 
@@ -1760,6 +1761,82 @@ def _run_corpus(ctx, model):
             _ctx_case(ctx, model, c)
 
 
+# ==============================================================================================
+# (C) default-precision worker: the multi-mode / history comparison repeated in a process WITHOUT jax_enable_x64
+
+
+def _nox64_start(ctx):
+    import subprocess
+    import sys
+
+    import cache_fresh
+
+    single = cache_fresh.build_catalog_single(ctx.seed)
+    always = [e for e in single if "XRayTransform" in e.name]                      # the classes that donate buffers
+    tvs = [e for e in single if "TVNorm" in e.name]                                # the class that caches operators
+    rest = [e for e in single if e not in always and e not in tvs]
+    pick = lambda pool, k: [pool[int(i)] for i in sorted(ctx.rng.choice(len(pool), size=min(len(pool), k), replace=False))]  # noqa: E731
+    ents = (always + tvs + rest) if ctx.thorough else (always + pick(tvs, 3) + pick(rest, 12))
+    env = dict(os.environ)
+    env.pop("JAX_ENABLE_X64", None)
+    env["PYTHONDONTWRITEBYTECODE"] = "1"
+    p = subprocess.Popen([sys.executable, str(common.VERIF / "harness" / "cache_nox64_worker.py")], stdin=subprocess.PIPE, stdout=subprocess.PIPE,
+                         stderr=subprocess.PIPE, text=True, env=env)
+    p.stdin.write(json.dumps({"repo": str(common.REPO), "seed": ctx.seed, "thorough": ctx.thorough, "entries": [e.name for e in ents]}))
+    p.stdin.close()
+    p.stdin = None
+    return p, {e.name: e for e in ents}
+
+
+def _nox64_collect(ctx, handle):
+    import cache_catalog as cc
+    import cache_fresh
+
+    p, ents = handle
+    out, err = p.communicate(timeout=1500)
+    line = next((ln for ln in reversed(out.splitlines()) if ln.startswith("{\"results\"")), None)
+    if p.returncode != 0 or line is None:
+        raise common.Infra("default-precision worker failed: " + err[-600:])
+    res = json.loads(line)["results"]
+    ctx.extra["nox64_calls"] = len(res)
+    for r in res:
+        case = {"kind": "nox64", "entry": r["entry"], "call": r["call"]}
+        ctx.case(case, ("nox64", r["entry"], r["call"]))
+        ctx.count("nox64:" + ("default-dtype" if r["entry"].endswith("/default") else r["entry"].rsplit("/", 1)[-1]))
+        e = ents.get(r["entry"])
+        x64 = c19_eval(e, r["call"]) if e is not None else None
+        problems = []
+        if "base_err" in r and (x64 is None or x64[0] == "ok"):
+            problems.append({"what": "the call raises in default precision (no x64)" + ("" if x64 is None else " but not with x64"), "raised": r["base_err"]})
+        if r.get("is64"):
+            problems.append({"what": "a float32 / complex64 computation returned a 64-bit array in default precision"})
+        def same_values(a, b):
+            # values only: which dtype a float32 computation RETURNS with x64 enabled is the subject of C12, not of this comparison
+            return len(a) == len(b) and all(np.shape(u) == np.shape(v) and common.allclose(np.real(u), np.real(v), rtol=2e-4)
+                                            and common.allclose(np.imag(u), np.imag(v), rtol=2e-4) for u, v in zip(a, b))
+
+        if "base" in r and x64 is not None and x64[0] == "ok" and not same_values(x64[1], cache_fresh.decode(r["base"])):
+            problems.append({"what": "value in default precision differs from the value of the same float32 computation with x64 enabled",
+                             "default_precision": [v.tolist() for v in cache_fresh.decode(r["base"])], "with_x64": [np.asarray(v).tolist() for v in x64[1]]})
+        for b in r["bad"]:
+            slug = _known_mode(r["entry"], r["call"], b["mode"], ("ok", None), ("err", b["got"])) if (b["base"] == "ok" and isinstance(b["got"], str)) else None
+            if slug is not None and ctx.is_known(slug):
+                ctx.suppressed += 1
+                ctx.known_finding(slug, True)   # the recorded finding, met in default precision as well
+                continue
+            problems.append({"what": "in default precision the result depends on the execution mode / call history", "mode": b["mode"],
+                             "fresh_eager": b["base"] if b["base"] != "value" else [v.tolist() for v in cache_fresh.decode(r["base"])],
+                             "this_mode": b["got"] if isinstance(b["got"], str) else [v.tolist() for v in cache_fresh.decode(b["got"])]})
+        if problems:
+            ctx.disagree("cache.nox64", case, problems[0].get("mode", problems[0]["what"]), "same as fresh eager / as with x64",
+                         oracle=lambda c, problems=problems: {"entry": c["entry"], "call": c["call"], **problems[0], "further": len(problems) - 1})
+
+
+def c19_eval(entry, call_name):
+    call = next((c for c in entry.calls if c[0] == call_name), None)
+    return None if call is None else _eval_call(entry, call, "eager")
+
+
 def _import_all():
     """everything the check touches is imported BEFORE the first picture of the module-level state"""
     import scico.function  # noqa: F401
@@ -1795,6 +1872,7 @@ def correspond(ctx, model):
     import cache_fresh
 
     _import_all()
+    nox64 = _nox64_start(ctx)   # runs while the state-machine streams below are evaluated
     state0 = cache_fresh.module_state()
     import time
 
@@ -1821,6 +1899,7 @@ def correspond(ctx, model):
     timed("trace", _corr_trace_time, ctx, model)
     timed("exhaustive", _corr_exhaustive, ctx, model)
     timed("mutation", _corr_mutation, ctx)
+    timed("nox64-collect", _nox64_collect, ctx, nox64)
     timed("modes", _corr_modes, ctx)
     _global_state_check(ctx, state0)
     ctx.extra["stream_seconds"] = secs
